@@ -110,6 +110,8 @@ pub uninterp spec fn mk_handle<T>(i: int) -> naga::Handle<T>;
 // a handle is determined by its index (naga: Handle = NonZeroU32 index + PhantomData)
 pub broadcast axiom fn axiom_mk_handle<T>(h: naga::Handle<T>)
     ensures #[trigger] mk_handle::<T>(handle_index(h)) == h;
+pub axiom fn axiom_mk_handle_idx<T>(i: int)
+    ensures handle_index(mk_handle::<T>(i)) == i;
 pub broadcast axiom fn axiom_handle_key_model<T>()
     ensures #[trigger] vstd::std_specs::hash::obeys_key_model::<naga::Handle<T>>();
 
